@@ -132,6 +132,9 @@ func runCheck(o checkOpts) int {
 		if d.Prop != prop {
 			continue
 		}
+		if d.Reach {
+			continue
+		}
 		for _, f := range d.Funcs {
 			sweepSet[f] = true
 		}
@@ -140,6 +143,20 @@ func runCheck(o checkOpts) int {
 				if fn.Pos().IsValid() && shortFile(c.fset.Position(fn.Pos()).Filename) == d.File && fn.Blocks != nil {
 					sweepSet[name] = true
 				}
+			}
+		}
+	}
+	for _, d := range c.cf.Sweeps {
+		if d.Prop != prop || !d.Reach {
+			continue
+		}
+		except := map[string]bool{}
+		for _, f := range d.Funcs {
+			except[f] = true
+		}
+		for _, name := range c.reachByCalls(sweepSet) {
+			if !except[name] {
+				sweepSet[name] = true
 			}
 		}
 	}
